@@ -28,15 +28,45 @@ NHDR = ("import numpy as np\nfrom qibo import set_backend\nset_backend('numpy')\
         "    IdentityChannel, TraceOperation, link_product)\nfrom qibo.backends import NumpyBackend\nnb = NumpyBackend()\n")
 
 
-def gi(rng, shape, lo=-2, hi=2):
+def gi(rng, shape, lo=-2, hi=2, real=False):
     n = int(np.prod(shape)) if len(shape) else 1
-    a = np.array([complex(rng.randint(lo, hi), rng.randint(lo, hi)) for _ in range(n)])
+    a = np.array([complex(rng.randint(lo, hi), 0 if real else rng.randint(lo, hi)) for _ in range(n)])
     return a.reshape(shape)
 
 
-def arr_src(a):
+# The user may hand over tensors / operators / states of any numeric kind; the VALUES of every result must
+# not depend on it (the dtype of the result is not compared).  Real kinds need data without imaginary part.
+KINDS = ("c128", "c64", "f64", "i64")
+REAL_KINDS = ("f64", "i64")
+NPTYPE = {"c128": "complex128", "c64": "complex64", "f64": "float64", "i64": "int64"}
+
+
+def as_kind(a, kind):
+    """the same values as an array of the given kind ("list": nested python lists of complex numbers)."""
     a = np.asarray(a)
-    return f"np.array({a.reshape(-1).tolist()!r}).reshape({tuple(a.shape)!r})"
+    if kind == "list":
+        return a.tolist()
+    if kind in REAL_KINDS:
+        assert not np.iscomplexobj(a) or np.all(a.imag == 0)
+        a = a.real
+    return a.astype(getattr(np, NPTYPE[kind]))
+
+
+def pick_kind(rng, data, kinds=KINDS):
+    """a kind that can hold the data exactly."""
+    data = np.asarray(data)
+    is_real = not np.iscomplexobj(data) or bool(np.all(data.imag == 0))
+    return rng.choice([k for k in kinds if is_real or k not in REAL_KINDS])
+
+
+def arr_src(a):
+    """source text reproducing the array WITH its dtype (python lists are written as lists)."""
+    if isinstance(a, list):
+        return repr(a)
+    a = np.asarray(a)
+    if a.dtype.kind in "fiu":
+        return f"np.array({a.reshape(-1).tolist()!r}, dtype=np.{a.dtype.name}).reshape({tuple(a.shape)!r})"
+    return f"np.array({a.reshape(-1).tolist()!r}, dtype=np.{a.dtype.name}).reshape({tuple(a.shape)!r})"
 
 
 def prod(xs):
@@ -50,9 +80,10 @@ class NS:
     """a network given by its construction route; yields the driver tokens, the real object and
     a source expression for replays."""
 
-    def __init__(self, route, part=(), data=None, pure=False, sys=None, inverse=False, shape=None, d=None):
+    def __init__(self, route, part=(), data=None, pure=False, sys=None, inverse=False, shape=None, d=None, kind="c128"):
         self.route, self.part, self.data, self.pure = route, tuple(part), data, pure
         self.sys, self.inverse, self.shape, self.d = sys, inverse, shape, d
+        self.kind = kind  # numeric kind of the array handed to the real constructor
 
     # -- driver tokens
     def tokens(self):
@@ -71,7 +102,8 @@ class NS:
 
     def _arr(self):
         a = np.asarray(self.data, dtype=complex)
-        return a.reshape(self.shape) if self.shape is not None else a
+        a = a.reshape(self.shape) if self.shape is not None else a
+        return as_kind(a, self.kind)
 
     # -- real object
     def build(self):
@@ -120,32 +152,34 @@ class NS:
         return f"TraceOperation({self.d}, backend=nb)"
 
     def key(self):
-        return f"{self.route}:{'pure' if self.pure else 'full'}{':inv' if self.inverse else ''}"
+        return f"{self.route}:{'pure' if self.pure else 'full'}{':inv' if self.inverse else ''}" + ("" if self.kind == "c128" else f":{self.kind}")
 
 
-def rand_net(rng, route, part, pure, inverse=False, sys=None):
+def rand_net(rng, route, part, pure, inverse=False, sys=None, kind=None):
     """Gaussian-integer data of the right size for the route; the array is handed over in a shape
     the route accepts (the constructors reshape)."""
     part = tuple(part)
     m = prod(part)
+    kind = kind or rng.choice(KINDS)
+    real = kind in REAL_KINDS
     if route in ("N", "Q"):
         if route == "Q":
             # the class constructor completes a one-leg partition; data size is unchanged
             pass
         size = m if pure else m * m
-        data = gi(rng, (size,))
+        data = gi(rng, (size,), real=real)
         shapes = [(size,)]
         if pure:
             shapes.append(part)
         else:
             shapes += [tuple(p * p for p in part), (m, m)]
-        return NS(route, part, data, pure, sys=sys, shape=rng.choice(shapes))
+        return NS(route, part, data, pure, sys=sys, shape=rng.choice(shapes), kind=kind)
     if pure:
-        return NS(route, part, gi(rng, (m,)), True, sys=sys, inverse=inverse, shape=part)
+        return NS(route, part, gi(rng, (m,), real=real), True, sys=sys, inverse=inverse, shape=part, kind=kind)
     shape = rng.choice([(m, m), part + part])
     if route == "F" and shape != (m, m) and False:
         shape = (m, m)
-    return NS(route, part, gi(rng, (m * m,)), False, sys=sys, inverse=inverse, shape=shape)
+    return NS(route, part, gi(rng, (m * m,), real=real), False, sys=sys, inverse=inverse, shape=shape, kind=kind)
 
 
 def real_dump(net):
@@ -196,15 +230,16 @@ class Suite:
         self.ctx, self.name, self.ob = ctx, name, f"C17_corr_{name}"
         self.lines, self.meta = [], []
 
-    def add(self, line, real_fn, key, src, what, parse=parse_dump, same=same_dump, show=dump_str):
+    def add(self, line, real_fn, key, src, what, parse=parse_dump, same=same_dump, show=dump_str, check=None):
+        """`check(model) -> str`: assertion appended to the replay source (exit status != 0 iff it still fails)."""
         self.lines.append(line)
-        self.meta.append((real_fn, key, src, what, parse, same, show))
+        self.meta.append((real_fn, key, src, what, parse, same, show, check))
 
     def run(self):
         ctx = self.ctx
         outs = run_driver(self.lines, driver=DRIVER)
         bad = 0
-        for (real_fn, key, src, what, parse, same, show), out in zip(self.meta, outs):
+        for (real_fn, key, src, what, parse, same, show, check), out in zip(self.meta, outs):
             model = parse(out)
             try:
                 real, err = real_fn(), None
@@ -216,7 +251,7 @@ class Suite:
                 bad += 1
                 ctx.fail(f"{self.name}:{key}", f"{what}: the real class differs from the index model"
                          + (f" (raised {type(err).__name__}: {err})" if err else ""),
-                         NHDR + src + f"\n# model: {show(model)}\n", expected=show(model),
+                         NHDR + src + f"\n# model: {show(model)}\n" + (check(model) if check else ""), expected=show(model),
                          observed=(show(real) if err is None else repr(err)), broken=[self.ob])
         ctx.ob(self.ob, bad == 0, "correspondence", f"{bad} disagreements" if bad else f"{len(self.lines)} cases")
         return bad
@@ -307,7 +342,8 @@ def corr_ctor(ctx):
             if len(part) == 4:
                 add(rand_net(rng, "C", part, pure, inverse=rng.random() < 0.5), f"QuantumComb.from_operator(op, {part}, pure={pure})")
     for d in (1, 2, 3):
-        add(NS("S", (1, d), gi(rng, (d * d,)), shape=(d, d), d=d), f"QuantumChannel.from_operator(rho), dimension {d}")
+        for kind in KINDS:
+            add(NS("S", (1, d), gi(rng, (d * d,), real=kind in REAL_KINDS), shape=(d, d), d=d, kind=kind), f"QuantumChannel.from_operator(rho), dimension {d}, {kind} array")
         add(NS("I", (d, d), d=d), f"IdentityChannel({d})")
         add(NS("R", (d,), d=d), f"TraceOperation({d})")
     s.run()
@@ -338,17 +374,25 @@ def corr_apply(ctx):
     def show(x):
         return "raises" if x is None else str(np.asarray(x).tolist())[:400]
 
+    def chk(model):
+        return f"exp = np.array({np.asarray(model).tolist()!r})\nassert out.shape == exp.shape and np.array_equal(out, exp), (out, exp)\n"
+
     for din, dout in itertools.product((1, 2, 3), repeat=2):
         for pure in (False, True):
             for ns in chan_specs(rng, din, dout, pure):
                 if ns.route == "C":
                     continue  # QuantumComb has no apply
-                rho = gi(rng, (din, din))
-                s.add(f"APPLY {ns.tokens()} {gi_tokens(rho)}",
-                      lambda ns=ns, rho=rho: np.asarray(ns.build().apply(rho.copy())).reshape(-1),
-                      ns.key() + f":{din}to{dout}",
-                      f"out = np.asarray({ns.src()}.apply({arr_src(rho)})).reshape(-1)\nprint(out.tolist())",
-                      f"QuantumChannel.apply, dims {din}->{dout}, pure={pure}", parse, same, show)
+                # the state's kind is chosen independently of the channel's: real channel x complex state,
+                # complex channel x real state, single precision, integers, nested python lists
+                for skind in (rng.choice(("c128", "list")), rng.choice(("c64", "f64", "i64"))):
+                    rho = gi(rng, (din, din), real=skind in REAL_KINDS)
+                    state = as_kind(rho, skind)
+                    ctx.stat(f"net_apply:kinds:{'real' if ns.kind in REAL_KINDS else 'complex'}-channel x {'real' if skind in REAL_KINDS else 'complex'}-state")
+                    s.add(f"APPLY {ns.tokens()} {gi_tokens(rho)}",
+                          lambda ns=ns, state=state: np.asarray(ns.build().apply(state.copy() if hasattr(state, "copy") else [list(r) for r in state])).reshape(-1),
+                          f"{'pure' if pure else 'full'}:{'real' if ns.kind in REAL_KINDS else 'complex'}-channel:{'list' if skind == 'list' else 'real' if skind in REAL_KINDS else 'complex'}-state",
+                          f"out = np.asarray({ns.src()}.apply({arr_src(state)})).reshape(-1)",
+                          f"QuantumChannel.apply ({ns.key()}), dims {din}->{dout}, pure={pure}, channel array {ns.kind}, state {skind}", parse, same, show, chk)
     # a state (one-leg partition) and the one-leg input convention
     for d in (1, 2, 3):
         for pure in (False, True):
@@ -356,8 +400,8 @@ def corr_apply(ctx):
             rho = gi(rng, (1, 1))
             s.add(f"APPLY {ns.tokens()} {gi_tokens(rho)}",
                   lambda ns=ns, rho=rho: np.asarray(ns.build().apply(rho.copy())).reshape(-1),
-                  ns.key() + f":state{d}", f"out = {ns.src()}.apply({arr_src(rho)})", f"state network of dimension {d} applied to a scalar",
-                  parse, same, show)
+                  f"state-network:{'pure' if pure else 'full'}:{'real' if ns.kind in REAL_KINDS else 'complex'}", f"out = np.asarray({ns.src()}.apply({arr_src(rho)})).reshape(-1)", f"state network of dimension {d} applied to a scalar",
+                  parse, same, show, chk)
     s.run()
 
 
@@ -437,7 +481,8 @@ def corr_matmul(ctx):
                       f"channel:{'p' if pa else 'f'}{'p' if pb else 'f'}", f"({A.src()}) @ ({B.src()})", f"A @ B with dims {d0}->{d1}->{d2}")
     # state network fed through a channel (partition (1, d) @ (d, d'))
     for d0, d1 in itertools.product((1, 2, 3), repeat=2):
-        A = NS("S", (1, d0), gi(rng, (d0 * d0,)), shape=(d0, d0), d=d0)
+        ka = rng.choice(KINDS)
+        A = NS("S", (1, d0), gi(rng, (d0 * d0,), real=ka in REAL_KINDS), shape=(d0, d0), d=d0, kind=ka)
         B = rng.choice(chan_specs(rng, d0, d1, rng.random() < 0.5))
         s.add_net(f"MATMUL {A.tokens()} {B.tokens()}", lambda A=A, B=B: real_dump(A.build() @ B.build()), "state",
                   f"({A.src()}) @ ({B.src()})", f"state @ channel, dims {d0}->{d1}")
@@ -516,11 +561,15 @@ def corr_pred(ctx):
             cls_has_unital = ns.route in ("H", "Q", "I", "S")
             return [t[0], t[1] if cls_has_causal else "-", t[2] if cls_has_unital else "-"]
 
-        s.add("PRED " + ns.tokens(), real, ns.key(), f"net = {ns.src()}\nprint(net.is_hermitian(), getattr(net, 'is_causal', lambda: None)(), getattr(net, 'is_unital', lambda: None)())",
-              what, parse_for, same, show)
+        def chk(model):
+            return ("got = ['1' if net.is_hermitian() else '0'] + [('1' if getattr(net, m)() else '0') if hasattr(net, m) and ok else '-' "
+                    "for m, ok in (('is_causal', True), ('is_unital', len(net.partition) == 2))]\n"
+                    f"assert got == {list(model)!r}, got\n")
+
+        s.add("PRED " + ns.tokens(), real, ns.key(), f"net = {ns.src()}", what, parse_for, same, show, chk)
 
     def chan(T, din, dout, route="Q"):
-        return NS(route, (din, dout), T.reshape(-1), False, shape=(din * din, dout * dout))
+        return NS(route, (din, dout), T.reshape(-1), False, shape=(din * din, dout * dout), kind=pick_kind(rng, T))
 
     for din, dout in itertools.product((1, 2, 3), repeat=2):
         for _ in range(2):
@@ -539,7 +588,7 @@ def corr_pred(ctx):
         add(rand_net(rng, "Q", (din, dout), True), f"pure channel object, dims {din}->{dout}")
         K = gi_isometry(rng, max(din, dout), min(din, dout))
         K = K if dout >= din else K.conj().T
-        add(NS("H", (dout, din), K.reshape(-1), True, inverse=True, shape=(dout, din)), f"pure channel object of a (co-)isometry, dims {din}->{dout}")
+        add(NS("H", (dout, din), K.reshape(-1), True, inverse=True, shape=(dout, din), kind=pick_kind(rng, K)), f"pure channel object of a (co-)isometry, dims {din}->{dout}")
     for d in (1, 2, 3):
         add(NS("I", (d, d), d=d), f"IdentityChannel({d})")
         rho = gi(rng, (d, d))
@@ -559,7 +608,7 @@ def corr_pred(ctx):
             if variant == "perturbed":
                 idx = tuple(rng.randrange(k) for k in T.shape)
                 T[idx] += 1
-            add(NS("B", dims, T.reshape(-1), False, shape=T.shape), f"4-leg comb P⊗Q ({variant}), partition {dims}")
+            add(NS("B", dims, T.reshape(-1), False, shape=T.shape, kind=pick_kind(rng, T)), f"4-leg comb P⊗Q ({variant}), partition {dims}")
     for part in [(2,), (3,), (2, 2), (1, 2), (2, 1, 2)]:
         add(rand_net(rng, "N", part, False), f"QuantumNetwork with partition {part}: is_hermitian")
         M = gi(rng, (prod(part), prod(part)))
@@ -611,15 +660,31 @@ def search_algebra(ctx):
     def col_choi(Ks):
         return sum(np.outer(K.T.reshape(-1), K.T.reshape(-1).conj()) for K in Ks)
 
-    def kraus_net(Ks, din, dout, conv):
-        if conv == "row":
-            return qn.QuantumChannel.from_operator(row_choi(Ks), (dout, din), inverse=True, backend=nb)
-        return qn.QuantumChannel.from_operator(col_choi(Ks), (din, dout), backend=nb)
+    def choi_kind(C, kind):
+        return as_kind(C, kind if (kind not in REAL_KINDS or np.all(np.asarray(C).imag == 0)) else "c128")
 
-    def kraus_src(Ks, din, dout, conv):
+    def kraus_net(Ks, din, dout, conv, kind="c128"):
         if conv == "row":
-            return f"QuantumChannel.from_operator({arr_src(row_choi(Ks))}, ({dout}, {din}), inverse=True, backend=nb)"
-        return f"QuantumChannel.from_operator({arr_src(col_choi(Ks))}, ({din}, {dout}), backend=nb)"
+            return qn.QuantumChannel.from_operator(choi_kind(row_choi(Ks), kind), (dout, din), inverse=True, backend=nb)
+        return qn.QuantumChannel.from_operator(choi_kind(col_choi(Ks), kind), (din, dout), backend=nb)
+
+    def kraus_src(Ks, din, dout, conv, kind="c128"):
+        if conv == "row":
+            return f"QuantumChannel.from_operator({arr_src(choi_kind(row_choi(Ks), kind))}, ({dout}, {din}), inverse=True, backend=nb)"
+        return f"QuantumChannel.from_operator({arr_src(choi_kind(col_choi(Ks), kind))}, ({din}, {dout}), backend=nb)"
+
+    def cp(x):
+        return x.copy() if hasattr(x, "copy") else [list(r) for r in x]
+
+    def kinds_pair():
+        """(kind of the channel's arrays, kind of the state): every second time one side is real and the other
+        genuinely complex — the combination in which a cast to the other side's dtype loses the imaginary part."""
+        r = rng.random()
+        if r < 0.35:
+            return rng.choice(REAL_KINDS), rng.choice(("c128", "c64", "list"))
+        if r < 0.6:
+            return rng.choice(("c128", "c64")), rng.choice(REAL_KINDS)
+        return rng.choice(KINDS), rng.choice(KINDS + ("list",))
 
     def safe(f):
         try:
@@ -627,17 +692,43 @@ def search_algebra(ctx):
         except Exception as e:  # noqa: BLE001
             return e
 
+    def pure_case(din, dout, ck, sk):
+        """pure channel: full() = Choi tensor of the stored operator, apply agrees before/after full(update=True)."""
+        U = gi(rng, (dout, din), real=ck in REAL_KINDS)
+        rho = gi(rng, (din, din), real=sk in REAL_KINDS)
+        Uk, state = as_kind(U, ck), as_kind(rho, sk)
+        truth = U @ rho @ U.conj().T
+        ctx.stat(f"net_algebra:kinds:{'real' if ck in REAL_KINDS else 'complex'}-channel x {'real' if sk in REAL_KINDS else 'complex'}-state")
+
+        def pure_full():
+            p = qn.QuantumChannel.from_operator(Uk.copy(), (dout, din), pure=True, inverse=True, backend=nb)
+            q = kraus_net([U], din, dout, "row")
+            a1 = np.asarray(p.apply(cp(state)))
+            ok = np.array_equal(np.asarray(p.full()), np.asarray(q.full())) and np.array_equal(a1, truth)
+            ok = ok and np.array_equal(np.asarray(p.matrix()), np.outer(U.T.reshape(-1), U.T.reshape(-1).conj()))
+            p.full(update=True)
+            return ok and not p.is_pure() and np.array_equal(np.asarray(p.apply(cp(state))), truth)
+
+        ok = safe(pure_full)
+        check(ok is True, "network-apply:pure", f"pure channel object of K: full() is not vec K vec K† in the input-first order, or apply differs from KρK† before/after full(update=True) (dims {din}->{dout}, operator {ck}, state {sk})",
+              f"U = {arr_src(Uk)}\nrho = {arr_src(state)}\np = QuantumChannel.from_operator(U, ({dout}, {din}), pure=True, inverse=True, backend=nb)\n"
+              f"assert np.array_equal(p.matrix(), np.outer(U.T.reshape(-1), U.T.reshape(-1).conj()))\nassert np.array_equal(p.apply(rho), U @ rho @ U.conj().T)\n"
+              "p.full(update=True)\nassert np.array_equal(p.apply(rho), U @ rho @ U.conj().T)\n", observed=repr(ok))
+
     for din, dout in itertools.product((1, 2, 3), repeat=2):
         for rank in (1, 2, 3):
-            Ks = [gi(rng, (dout, din)) for _ in range(rank)]
-            rho = gi(rng, (din, din))
+            ck, sk = kinds_pair()
+            Ks = [gi(rng, (dout, din), real=ck in REAL_KINDS) for _ in range(rank)]
+            rho = gi(rng, (din, din), real=sk in REAL_KINDS)
+            state = as_kind(rho, sk)
             truth = sum(K @ rho @ K.conj().T for K in Ks)
+            ctx.stat(f"net_algebra:kinds:{'real' if ck in REAL_KINDS else 'complex'}-channel x {'real' if sk in REAL_KINDS else 'complex'}-state")
             for conv in ("row", "column"):
-                out = safe(lambda: np.asarray(kraus_net(Ks, din, dout, conv).apply(rho.copy())))
+                out = safe(lambda: np.asarray(kraus_net(Ks, din, dout, conv, ck).apply(cp(state))))
                 ok = isinstance(out, np.ndarray) and out.shape == truth.shape and np.array_equal(out, truth)
-                check(ok, f"network-apply:mixed", f"apply of the channel object built from the {conv}-order Choi operator of a Kraus family "
-                      f"({'inverse=True' if conv == 'row' else 'input leg first'}) differs from Σ KρK† (dims {din}->{dout}, rank {rank})",
-                      f"ch = {kraus_src(Ks, din, dout, conv)}\nout = ch.apply({arr_src(rho)})\nexp = {arr_src(truth)}\nassert np.array_equal(out, exp), (out, exp)\n",
+                check(ok, f"network-apply:mixed", f"apply of the channel object built from the {conv}-order Choi operator ({ck} array) of a Kraus family "
+                      f"({'inverse=True' if conv == 'row' else 'input leg first'}) to a {sk} state differs from Σ KρK† (dims {din}->{dout}, rank {rank})",
+                      f"ch = {kraus_src(Ks, din, dout, conv, ck)}\nout = np.asarray(ch.apply({arr_src(state)}))\nexp = {arr_src(truth)}\nassert out.shape == exp.shape and np.array_equal(out, exp), (out, exp)\n",
                       expected=str(truth.tolist()), observed=str(out.tolist() if isinstance(out, np.ndarray) else out))
             # composition with a second channel dout -> d2, both conventions mixed
             d2 = rng.randint(1, 3)
@@ -646,17 +737,17 @@ def search_algebra(ctx):
             comp_K = [L @ K for K in Ks for L in Ls]
 
             def comp():
-                A, B = kraus_net(Ks, din, dout, c1), kraus_net(Ls, dout, d2, c2)
+                A, B = kraus_net(Ks, din, dout, c1, ck), kraus_net(Ls, dout, d2, c2)
                 C = A @ B
                 D = kraus_net(comp_K, din, d2, "row")
-                a = np.asarray(qn.QuantumChannel(C.full(), C.partition, backend=nb).apply(rho.copy()))
+                a = np.asarray(qn.QuantumChannel(C.full(), C.partition, backend=nb).apply(cp(state)))
                 return (tuple(C.partition) == (din, d2) and tuple(C.system_input) == (True, False)
                         and np.array_equal(np.asarray(C.full()), np.asarray(D.full()))
                         and np.array_equal(a, sum(L @ truth @ L.conj().T for L in Ls)))
 
             ok = safe(comp)
             check(ok is True, "network-compose", f"A @ B is not the channel object of 'A then B' = Kraus family {{L·K}} (dims {din}->{dout}->{d2})",
-                  f"A = {kraus_src(Ks, din, dout, c1)}\nB = {kraus_src(Ls, dout, d2, c2)}\nD = {kraus_src(comp_K, din, d2, 'row')}\n"
+                  f"A = {kraus_src(Ks, din, dout, c1, ck)}\nB = {kraus_src(Ls, dout, d2, c2)}\nD = {kraus_src(comp_K, din, d2, 'row')}\n"
                   "C = A @ B\nassert tuple(C.partition) == tuple(D.partition) and tuple(C.system_input) == (True, False)\nassert np.array_equal(C.full(), D.full())\n",
                   observed=repr(ok))
             # associativity and units, arbitrary (not completely positive) tensors, pure and not
@@ -682,24 +773,9 @@ def search_algebra(ctx):
                   f"A = {specs[0].src()}\nassert np.array_equal((IdentityChannel({din}, backend=nb) @ A).full(), A.full())\n"
                   f"assert np.array_equal((A @ IdentityChannel({dout}, backend=nb)).full(), A.full())\n", observed=repr(ok))
         # pure channel: full() = Choi tensor of the stored operator, apply agrees before/after full(update=True)
-        U = gi(rng, (dout, din))
-        rho = gi(rng, (din, din))
-        truth = U @ rho @ U.conj().T
+        for ck, sk in (kinds_pair(), (rng.choice(REAL_KINDS), "c128")):
+            pure_case(din, dout, ck, sk)
 
-        def pure_full():
-            p = qn.QuantumChannel.from_operator(U.copy(), (dout, din), pure=True, inverse=True, backend=nb)
-            q = kraus_net([U], din, dout, "row")
-            a1 = np.asarray(p.apply(rho.copy()))
-            ok = np.array_equal(np.asarray(p.full()), np.asarray(q.full())) and np.array_equal(a1, truth)
-            ok = ok and np.array_equal(np.asarray(p.matrix()), np.outer(U.T.reshape(-1), U.T.reshape(-1).conj()))
-            p.full(update=True)
-            return ok and not p.is_pure() and np.array_equal(np.asarray(p.apply(rho.copy())), truth)
-
-        ok = safe(pure_full)
-        check(ok is True, "network-apply:pure", f"pure channel object of K: full() is not vec K vec K† in the input-first order, or apply differs from KρK† before/after full(update=True) (dims {din}->{dout})",
-              f"U = {arr_src(U)}\nrho = {arr_src(rho)}\np = QuantumChannel.from_operator(U, ({dout}, {din}), pure=True, inverse=True, backend=nb)\n"
-              f"assert np.array_equal(p.matrix(), np.outer(U.T.reshape(-1), U.T.reshape(-1).conj()))\nassert np.array_equal(p.apply(rho), U @ rho @ U.conj().T)\n"
-              "p.full(update=True)\nassert np.array_equal(p.apply(rho), U @ rho @ U.conj().T)\n", observed=repr(ok))
     # the Choi operator straight from kraus_to_choi (qubit channels): row with inverse, column without
     for n in (1, 2):
         d = 2**n
